@@ -1909,6 +1909,9 @@ class Interp(object):
                 return Aff(0, Fraction(delta.days * 86400 + delta.seconds) + Fraction(delta.microseconds, 10 ** 6), 'dt')
             return Builtin(base.name + '.' + attr)
         if isinstance(base, Builtin):
+            if base.name.startswith('hx:') and not attr.startswith('__'):
+                # an opaque host callable of a scripted run: a plain function object, it carries no attributes of its own
+                raise Raised(Exc('AttributeError', "'function' object has no attribute '%s'" % attr))
             return Builtin(base.name + '.' + attr)
         return absmodels.value_attr(self, base, attr)
 
